@@ -59,7 +59,7 @@ Hypothesis Hws : length ws = length rows /\
   forall i k, (i < length rows)%nat -> qget (nth i ws dflt_arr) [k] = nth k (nth i rows []) 0.
 (* C14: the product-mapped function representation holds the specification's reads at the nodes *)
 Hypothesis Hccvs : forall idx, in_bounds shape_ idx ->
-  node_value m p vnext e (node_labels ss idx) = VFin (qget ccvs idx).
+  exists q, node_value m p vnext e (node_labels ss idx) = VFin q /\ q == qget ccvs idx.
 
 Theorem code_expectation_is_spec_continuation :
   exists c, continuation m p vnext e = VFin c /\
@@ -80,8 +80,9 @@ Proof.
     generalize (indices shape_). intros L HL. induction L as [|idx L IH].
     - exists 0. split; reflexivity.
     - destruct IH as (c & Hc & Ec); [intros i Hi; apply HL; now right|].
-      exists (c + wprod rows idx * qget ccvs idx). unfold expect in *. cbn [map fold_right fst snd].
-      rewrite (HL idx (or_introl eq_refl)), Hc. split; [reflexivity|]. unfold qsum in *. cbn [map fold_right]. rewrite Ec. ring. }
+      destruct (HL idx (or_introl eq_refl)) as (q & Hq & Eq).
+      exists (c + wprod rows idx * q). unfold expect in *. cbn [map fold_right fst snd].
+      rewrite Hq, Hc. split; [reflexivity|]. unfold qsum in *. cbn [map fold_right]. rewrite Ec, Eq. ring. }
   destruct E as (c & Hc & Ec). exists c. split; [exact Hc|]. rewrite Ec. unfold qsum.
   assert (Hmap : forall L, (forall idx, In idx L -> in_bounds shape_ idx) ->
             fold_right Qplus 0 (map (fun idx => qget ccvs idx * wprod rows idx) L)
